@@ -157,11 +157,27 @@ class Check:
             return False
         return True
 
+    def build_cdrv(self):
+        """Build the C implementation of the working tree with the line-protocol driver (C15)."""
+        cdir = os.path.join(REPO, "c")
+        srcs = [os.path.join(cdir, f) for f in sorted(os.listdir(cdir))
+                if f.endswith(".c") and not f.endswith("_test.c") and f not in ("test_framework.c", "dump.c")]
+        out = os.path.join(self.scratch, "cdrv")
+        rc, txt = sh(["gcc", "-O1", "-w", "-I" + cdir, "-I" + os.path.join(cdir, "include"), "-o", out,
+                      os.path.join(ROOT, "harness", "cdriver", "cdrv.c")] + srcs + ["-lz"], timeout=600)
+        if rc != 0:
+            self.notes.append("C build failed: " + txt[-2000:])
+            return None
+        return out
+
     def run_harness(self, hprop, extra_args="", timeout=3000):
         out = os.path.join(self.scratch, "out")
         os.makedirs(out, exist_ok=True)
+        env = dict(GOENV)
+        if getattr(self, "cdrv", None):
+            env["VERIF_CDRV"] = self.cdrv
         rc, txt = sh("./h -prop %s -seed %d -tier %s -out %s %s" % (hprop, self.seed, self.tier, out, extra_args),
-                     cwd=os.path.join(self.scratch, "harness"), env=GOENV, timeout=timeout)
+                     cwd=os.path.join(self.scratch, "harness"), env=env, timeout=timeout)
         cases = os.path.join(out, hprop + ".cases")
         stats = {}
         try:
